@@ -892,3 +892,52 @@ Example C05_handler_without_family_test_refuted :
               SvcbParams.hint_packs h = false.
 Proof. exact Proofs.SvcbParams.handler_without_family_test_refuted. Qed.
 Print Assumptions C05_handler_without_family_test_refuted.
+
+(** * Round 9b: the value of a TXT $dnsrewrite rule (txtStrings, /repo cda17d7)
+
+    A TXT record carries character strings of at most 255 octets each; a value
+    given as ONE longer string makes a record that cannot be packed, and the
+    query gets no reply.  Model/TxtStrings.v mirrors the loop of txtStrings
+    (fuel = the length of the value).  For EVERY value: *)
+From AGH Require Model.TxtStrings Proofs.TxtStrings.
+
+Theorem C05_txt_strings_fit : forall v,
+  Forall (fun s => (length s <= 255)%nat) (TxtStrings.txt_strings v).
+Proof. exact Proofs.TxtStrings.txt_strings_fit. Qed.
+Print Assumptions C05_txt_strings_fit.
+
+Theorem C05_txt_strings_concat : forall v, concat (TxtStrings.txt_strings v) = v.
+Proof. exact Proofs.TxtStrings.txt_strings_concat. Qed.
+Print Assumptions C05_txt_strings_concat.
+
+Theorem C05_txt_strings_nonempty : forall v, TxtStrings.txt_strings v <> [].
+Proof. exact Proofs.TxtStrings.txt_strings_nonempty. Qed.
+Print Assumptions C05_txt_strings_nonempty.
+
+(** the number of strings is ceil(n / 255), and 1 for the empty value *)
+Theorem C05_txt_strings_count_ceil : forall v,
+  length (TxtStrings.txt_strings v) =
+  (if length v =? 0 then 1 else (length v + 254) / 255)%nat.
+Proof. exact Proofs.TxtStrings.txt_strings_count_ceil. Qed.
+Print Assumptions C05_txt_strings_count_ceil.
+
+Theorem C05_txt_strings_count : forall v,
+  let n := length v in let k := length (TxtStrings.txt_strings v) in
+  (n = 0 -> k = 1)%nat /\ (0 < n -> 255 * (k - 1) < n /\ n <= 255 * k)%nat.
+Proof. exact Proofs.TxtStrings.txt_strings_count. Qed.
+Print Assumptions C05_txt_strings_count.
+
+(** The value as one string (before cda17d7) does not fit from 256 octets on. *)
+Theorem C05_txt_unsplit_refuted :
+  exists v, TxtStrings.txt_fits (TxtStrings.txt_unsplit v) = false /\
+            TxtStrings.txt_fits (TxtStrings.txt_strings v) = true.
+Proof. exact Proofs.TxtStrings.txt_unsplit_refuted. Qed.
+Print Assumptions C05_txt_unsplit_refuted.
+
+Example C05_txt_strings_example :
+  map (@length N) (TxtStrings.txt_strings (repeat 97%N 600)) = [255; 255; 90]%nat /\
+  TxtStrings.txt_strings [] = [[]] /\
+  map (@length N) (TxtStrings.txt_strings (repeat 97%N 255)) = [255]%nat /\
+  map (@length N) (TxtStrings.txt_strings (repeat 97%N 256)) = [255; 1]%nat.
+Proof. exact Proofs.TxtStrings.txt_strings_example. Qed.
+Print Assumptions C05_txt_strings_example.
